@@ -349,6 +349,19 @@ inline HllState gen_hll(int variant, Rng& r, bool small) {
   }
   return st;
 }
+inline HllState gen_hll_big_set(Rng& r) {
+  const uint8_t lg_k = static_cast<uint8_t>(17 + r.below(5));
+  const target_hll_type T = static_cast<target_hll_type>(r.below(3));
+  const uint64_t limit = (3ULL << (lg_k - 3)) / 4;                       // promotion to HLL mode above this many coupons
+  const uint64_t n = 6200 + r.below(std::min<uint64_t>(limit, 22000) - 6200 - 200);
+  HllState st(hll_sketch(lg_k, T), r.chance(0.15), lg_k);
+  for (uint64_t i = 0; i < n; ++i) {
+    Val v; v.kind = V_U64; v.u = r.next();
+    // a share of inputs with a large register value: their coupons carry high bits above the 26 key bits
+    st.sk.update(v.u); st.inputs.push_back(v);
+  }
+  return st;
+}
 inline std::string write_hll(const hll_sketch& s, bool compact, bool stream) {
   if (stream) { std::ostringstream os; if (compact) s.serialize_compact(os); else s.serialize_updatable(os); return os.str(); }
   return to_str(compact ? s.serialize_compact() : s.serialize_updatable());
@@ -397,6 +410,7 @@ inline void decode_check_hll(const HllState& st, const std::string& img, const s
     VF_CHECK(got == cps, "hll|image-vs-reference|coupon-set", ctx + " stored=" + std::to_string(got.size()) + " reference=" + std::to_string(cps.size()));
     VF_CHECK(!d.ooo || d.mode == 1, "hll|image|out-of-order-flag-in-list-mode", ctx);
     count(d.mode == 0 ? "hll_list" : "hll_set");
+    if (d.set_probe_checked) { count("hll_set_updatable_probe_sequence_checked"); if (d.lg_arr >= 14) count(std::string("hll_set_updatable_lgarr_ge_14_hll") + (d.tgt == 0 ? "4" : d.tgt == 1 ? "6" : "8")); }
   } else {
     std::vector<uint8_t> want(k, 0);
     for (uint32_t cp : cps) { const uint32_t slot = cp & (k - 1); const uint8_t val = uint8_t(cp >> 26); if (val > want[slot]) want[slot] = val; }
@@ -424,7 +438,11 @@ inline void register_hll() {
   f.build = [](int v, Rng& r, bool small) { HllState st = gen_hll(v, r, small); return Built{write_hll(st.sk, st.compact, false), readout_hll(st.sk)}; };
   f.read = [](const std::string& img, bool stream, int) { return readout_hll(read_hll(img, stream)); };
   f.decode_case = [](int v, Rng& r, bool small) {
-    HllState st = gen_hll(v, r, small);
+    // generated cases only: large SET-mode tables (>= 2^14 slots need lg_k >= 17 and more than 6144 coupons while still below the
+    // SET->HLL promotion at 3/4 * 2^(lg_k-3)); the probe stride then depends on the masking of the 26 key bits
+    const bool big_set = r.chance(0.1);
+    HllState st = big_set ? gen_hll_big_set(r) : gen_hll(v, r, small);
+    if (big_set) count("hll_big_set_states");
     const std::string ctx = "variant=" + std::to_string(v) + " lg_k=" + std::to_string(st.lg_k) + " inputs=" + std::to_string(st.inputs.size()) + (st.compact ? " compact" : " updatable");
     const std::string b = write_hll(st.sk, st.compact, false), s = write_hll(st.sk, st.compact, true);
     decode_check_hll(st, b, ctx + " path=bytes");
